@@ -12,7 +12,11 @@ fn mk(name: &str, cfg: Cfg, alpha: Alpha, pfx: &str, depth: usize, min_depth: us
     let mut prop = SeqProp::new("C01", cfg, alpha);
     prop.prefix = prefix(pfx);
     prop.probe = probe;
-    Pass { name: name.to_string(), prop, depth, min_depth, budget: Duration::from_secs_f64(secs) }
+    let extra: usize = std::env::var("FJV_DEDUP_EXTRA").ok().and_then(|s| s.parse().ok()).unwrap_or(0);
+    prop.dedup = extra > 0;
+    let depth = std::env::var("FJV_DEDUP_FROM").ok().and_then(|s| s.parse().ok()).unwrap_or(depth);
+    let secs = std::env::var("FJV_SECS").ok().and_then(|s| s.parse().ok()).unwrap_or(secs);
+    Pass { name: name.to_string(), prop, depth, min_depth, budget: Duration::from_secs_f64(secs), dedup_extra: extra, dedup_budget: Duration::from_secs_f64(secs) }
 }
 
 pub fn passes(tier: &str) -> Vec<Pass> {
